@@ -12,6 +12,8 @@ structure Cfg where
   stopSignal : Option Sig := none     -- --stop-signal
   signal : Option Sig := none         -- --signal
   stopTimeout : Nat := 10000          -- --stop-timeout (ms)
+  sigMap : List (Sig × Option Sig) := []   -- --map-signal FROM:TO (TO empty = discard), in command-line order
+  stdinQuit : Bool := false           -- --stdin-quit
   deriving Repr
 
 /-- `EventsArgs::normalise`: `--signal` implies signal mode whatever `--on-busy-update` says; else `-r` means restart; else
@@ -108,9 +110,10 @@ theorem react_no_forceful (cfg : Cfg) (cs : CS) (q) :
 
 /-! ### signals received by watchexec itself (C08, last sentence)
 
-`config.rs`: a batch that carries Terminate or Interrupt (and `--map-signal` does not map them) quits — the first
+`config.rs`: a batch that carries Terminate or Interrupt which `--map-signal` does not map quits — the first
 time gracefully with the configured stop signal and stop timeout, a second time with KILL and no grace, a third time by
-abort; every other signal is passed on to the command. (`--map-signal` is not modelled.) -/
+abort; otherwise every signal of the batch is handed to the command: translated if it is mapped to another signal,
+dropped if it is mapped to nothing, unchanged if it is not mapped. With `--stdin-quit` a keyboard EOF quits the same way. -/
 
 def sigInt : Sig := 2
 
@@ -121,13 +124,39 @@ inductive SigAct
   | pass (sigs : List Sig)        -- `job.signal(sig)` for each, in order; the handler then returns (no filesystem event)
   deriving DecidableEq, Repr
 
+/-- `signal_map.get(&s)`: the map is `collect`ed from the command-line list, so the LAST mapping given for a signal counts -/
+def mapped (cfg : Cfg) (s : Sig) : Option (Option Sig) := (cfg.sigMap.reverse.find? (·.1 == s)).map (·.2)
+
+/-- what is handed to the command for a received signal -/
+def translate (cfg : Cfg) (sigs : List Sig) : List Sig :=
+  sigs.filterMap (fun s => match mapped cfg s with | some (some m) => some m | some none => none | none => some s)
+
+def quitManner (cfg : Cfg) (quitCount : Nat) : Manner :=
+  match quitCount with
+  | 0 => .graceful (cfg.stopSignal.getD term) cfg.stopTimeout
+  | 1 => .graceful 9 0
+  | _ => .abort
+
+/-- the batch carries an interrupt or terminate that the user did not map -/
+def quitting (cfg : Cfg) (sigs : List Sig) : Bool :=
+  (sigs.contains term && (mapped cfg term).isNone) || (sigs.contains sigInt && (mapped cfg sigInt).isNone)
+
 def onSignals (cfg : Cfg) (quitCount : Nat) (sigs : List Sig) : SigAct :=
-  if sigs.contains term || sigs.contains sigInt then
-    match quitCount with
-    | 0 => .quit (.graceful (cfg.stopSignal.getD term) cfg.stopTimeout)
-    | 1 => .quit (.graceful 9 0)
-    | _ => .quit .abort
-  else .pass sigs
+  if quitting cfg sigs then .quit (quitManner cfg quitCount) else .pass (translate cfg sigs)
+
+/-- a keyboard EOF event: quits with `--stdin-quit`; otherwise the batch has no path and no empty event and is skipped -/
+def onEof (cfg : Cfg) (quitCount : Nat) : Option Manner := if cfg.stdinQuit then some (quitManner cfg quitCount) else none
+
+theorem mapped_nil (cfg : Cfg) (h : cfg.sigMap = []) (s : Sig) : mapped cfg s = none := by simp [mapped, h]
+
+theorem translate_unmapped (cfg : Cfg) (sigs : List Sig) (h : ∀ s ∈ sigs, mapped cfg s = none) : translate cfg sigs = sigs := by
+  induction sigs with
+  | nil => rfl
+  | cons s ss ih =>
+    have hs := h s (by simp)
+    have := ih (fun s' hs' => h s' (by simp [hs']))
+    simp only [translate, List.filterMap_cons, hs] at this ⊢
+    rw [this]
 
 /-- what the action worker does with a quit, per job: `stop_with_signal(sig, grace)` then `delete()` (graceful), or the
     job task is aborted and the handle dropped (abort) -/
@@ -137,11 +166,14 @@ def quitCtls : Manner → List (List Ctl)
 
 /-- **an interrupt or terminate signal leads to exactly the graceful shutdown**: the first one quits with the configured
     stop signal (default TERM) and the configured stop timeout — whatever else the batch carries -/
-theorem first_interrupt_quits_gracefully (cfg : Cfg) (sigs : List Sig) (h : term ∈ sigs ∨ sigInt ∈ sigs) :
+theorem quitting_of (cfg : Cfg) (sigs : List Sig)
+    (h : (term ∈ sigs ∧ mapped cfg term = none) ∨ (sigInt ∈ sigs ∧ mapped cfg sigInt = none)) : quitting cfg sigs = true := by
+  rcases h with ⟨h, hm⟩ | ⟨h, hm⟩ <;> simp [quitting, h, hm]
+
+theorem first_interrupt_quits_gracefully (cfg : Cfg) (sigs : List Sig)
+    (h : (term ∈ sigs ∧ mapped cfg term = none) ∨ (sigInt ∈ sigs ∧ mapped cfg sigInt = none)) :
     onSignals cfg 0 sigs = .quit (.graceful (cfg.stopSignal.getD term) cfg.stopTimeout) := by
-  have : (sigs.contains term || sigs.contains sigInt) = true := by
-    rcases h with h | h <;> simp [h]
-  (unfold onSignals; rw [if_pos this]; rfl)
+  unfold onSignals; rw [if_pos (quitting_of cfg sigs h)]; rfl
 
 /-- … and per job that is: GracefulStop(stop signal, stop timeout), then Stop + Delete — the sequence C08's bound is about -/
 theorem graceful_quit_sequence (sig : Sig) (grace : Nat) :
@@ -149,15 +181,49 @@ theorem graceful_quit_sequence (sig : Sig) (grace : Nat) :
 
 /-- any other signal never quits: it is handed to the command unchanged -/
 theorem other_signals_pass (cfg : Cfg) (n : Nat) (sigs : List Sig) (h1 : term ∉ sigs) (h2 : sigInt ∉ sigs) :
-    onSignals cfg n sigs = .pass sigs := by
-  have : ¬ (sigs.contains term || sigs.contains sigInt) = true := by simp [h1, h2]
+    onSignals cfg n sigs = .pass (translate cfg sigs) := by
+  have : ¬ quitting cfg sigs = true := by simp [quitting, h1, h2]
   unfold onSignals; rw [if_neg this]
 
+/-- … and without `--map-signal` (or for signals it does not mention) that is the very same signals, in order -/
+theorem unmapped_signals_pass_unchanged (cfg : Cfg) (n : Nat) (sigs : List Sig) (h1 : term ∉ sigs) (h2 : sigInt ∉ sigs)
+    (hm : ∀ s ∈ sigs, mapped cfg s = none) : onSignals cfg n sigs = .pass sigs := by
+  rw [other_signals_pass cfg n sigs h1 h2, translate_unmapped cfg sigs hm]
+
+/-- `--map-signal`: an interrupt or terminate the user mapped does NOT quit (unless the batch also carries the other one,
+    unmapped); the command gets what it was mapped to, or nothing -/
+theorem mapped_interrupt_does_not_quit (cfg : Cfg) (n : Nat) (sigs : List Sig)
+    (ht : term ∈ sigs → (mapped cfg term).isSome) (hi : sigInt ∈ sigs → (mapped cfg sigInt).isSome) :
+    onSignals cfg n sigs = .pass (translate cfg sigs) := by
+  have : ¬ quitting cfg sigs = true := by
+    simp only [quitting, Bool.or_eq_true, Bool.and_eq_true, List.contains_iff_mem, not_or, not_and]
+    constructor
+    · intro h; have := ht h; cases hm : mapped cfg term <;> simp_all
+    · intro h; have := hi h; cases hm : mapped cfg sigInt <;> simp_all
+  unfold onSignals; rw [if_neg this]
+
+/-- a signal mapped to nothing is discarded, one mapped to another signal arrives as that signal, the others as themselves -/
+theorem translate_one (cfg : Cfg) (s : Sig) :
+    translate cfg [s] = match mapped cfg s with | some (some m) => [m] | some none => [] | none => [s] := by
+  simp only [translate, List.filterMap_cons, List.filterMap_nil]
+  cases mapped cfg s with
+  | none => rfl
+  | some o => cases o <;> rfl
+
+/-- the LAST `--map-signal` given for a signal is the one that counts -/
+theorem last_mapping_wins (cfg : Cfg) (s : Sig) (to : Option Sig) (rest : List (Sig × Option Sig)) (h : cfg.sigMap = rest ++ [(s, to)]) :
+    mapped cfg s = some to := by simp [mapped, h]
+
 /-- repeated interrupts escalate: KILL without grace, then abort -/
-theorem interrupts_escalate (cfg : Cfg) (sigs : List Sig) (h : term ∈ sigs ∨ sigInt ∈ sigs) :
+theorem interrupts_escalate (cfg : Cfg) (sigs : List Sig)
+    (h : (term ∈ sigs ∧ mapped cfg term = none) ∨ (sigInt ∈ sigs ∧ mapped cfg sigInt = none)) :
     onSignals cfg 1 sigs = .quit (.graceful 9 0) ∧ ∀ n, onSignals cfg (n + 2) sigs = .quit .abort := by
-  have : (sigs.contains term || sigs.contains sigInt) = true := by
-    rcases h with h | h <;> simp [h]
+  have := quitting_of cfg sigs h
   exact ⟨by (unfold onSignals; rw [if_pos this]; rfl), fun n => by (unfold onSignals; rw [if_pos this]; rfl)⟩
+
+/-- `--stdin-quit`: end of input on watchexec's stdin quits exactly like the first interrupt; without the option it does nothing -/
+theorem keyboard_eof_quits_gracefully (cfg : Cfg) (h : cfg.stdinQuit = true) :
+    onEof cfg 0 = some (.graceful (cfg.stopSignal.getD term) cfg.stopTimeout) := by simp [onEof, h, quitManner]
+theorem keyboard_eof_ignored_without_option (cfg : Cfg) (n : Nat) (h : cfg.stdinQuit = false) : onEof cfg n = none := by simp [onEof, h]
 
 end Ca
